@@ -38,8 +38,9 @@ func ghost_jencw(e *json.Encoder) io.Writer  { panic("ghost") }
 //@   ensures ghost_status(w) == code
 //@ iface net/http.ResponseWriter.Header(self http.ResponseWriter) (h http.Header)
 //@ iface net/http.ResponseWriter.Write(self http.ResponseWriter, b []byte) (n int, err error)
-//@   modifies ghost_nbody(self)
+//@   modifies ghost_nbody(self), ghost_wcontent(self)
 //@   ensures ghost_nbody(self) == old(ghost_nbody(self)) + 1
+//@   ensures err == nil ==> ghost_wcontent(self) == vcTokCat(old(ghost_wcontent(self)), vcTokBytes(b))
 //@ iface net/http.ResponseWriter.WriteHeader(self http.ResponseWriter, statusCode int)
 //@   modifies ghost_status(self)
 //@   ensures ghost_status(self) == statusCode
@@ -56,8 +57,10 @@ func ghost_jencw(e *json.Encoder) io.Writer  { panic("ghost") }
 //@ ext (*encoding/json.Decoder).Decode(d *json.Decoder, v any) (err error)
 //@   attr havoc-pointee=1
 
-// io.Copy streams src to dst; only the fact that it writes to dst is recorded.
+// io.Copy streams src to dst: on success dst has received, after what it had, everything src yields.
 //@ ext io.Copy(dst io.Writer, src io.Reader) (written int64, err error)
+//@   modifies ghost_wcontent(dst), ghost_rcontent(src)
+//@   ensures err == nil ==> ghost_wcontent(dst) == vcTokCat(old(ghost_wcontent(dst)), old(ghost_rcontent(src)))
 
 //@ ext github.com/gorilla/mux.Vars(r *http.Request) (m map[string]string)
 
